@@ -58,12 +58,12 @@ C08(i) ==
     \* every action of the episode was valid and the episode is over: the return is minus the length of
     \* the closed tour (closing leg included), whichever reward function is used
     (IF IsLast(e) /\ mk /\ MaskAllows(i)
-     THEN { <<"C08.return_eq_objective", Abs(ret + Objective(s)) <= LegTol(2 * N)>>,
-            <<"C08.dense_eq_sparse", Abs(ret - (acc2 + e.alt.reward.q[1])) <= LegTol(2 * N)>> } ELSE {})
+     THEN { <<"C08.return_eq_objective", Abs(ret + Objective(s)) <= LegTol(N)>>,
+            <<"C08.dense_eq_sparse", Abs(ret - (acc2 + e.alt.reward.q[1])) <= LegTol(N)>> } ELSE {})
     \cup
     \* dense bookkeeping before the end: the running return is minus the open path walked so far
     (IF ~IsLast(e) /\ mk /\ MaskAllows(i) /\ Fn = "dense"
-     THEN { <<"C08.dense_running_return_eq_path", Abs(ret + PathLength(s)) <= LegTol(2 * s.num_visited)>> } ELSE {})
+     THEN { <<"C08.dense_running_return_eq_path", Abs(ret + PathLength(s)) <= LegTol(s.num_visited - 1)>> } ELSE {})
   ELSE {}
 
 C09(i) ==
